@@ -44,6 +44,16 @@ void f_sched(void) {
 #endif
         ;
       if (!anyrun) break; }      /* stuck: judged after the loop (no inner loop here: the slice loop must stay loop 1 for --unwindset) */
+    /* a deadline may expire without the sleeper running at once: it only becomes runnable, others may run first */
+    { uint8_t u = nondet_u8();
+      if (u == 0 && st[0] != 0) f_K_timeout_event(0); else if (u == 1 && st[1] != 0) f_K_timeout_event(1);
+#if NT > 2
+      else if (u == 2 && st[2] != 0) f_K_timeout_event(2);
+#endif
+#if NT > 3
+      else if (u == 3 && st[3] != 0) f_K_timeout_event(3);
+#endif
+    }
     uint8_t t = nondet_u8(); __CPROVER_assume(t < NT && st[t] != 0);
     int r;   /* a blocked thread is chosen only to let its deadline expire */
 #ifdef VERIF_SHARED_ERRNO
@@ -52,13 +62,13 @@ void f_sched(void) {
 #endif
     /* thread id and instance are constants inside each branch: CURRENT, the frame and the thread object stay concrete
        pointers for the symbolic execution (a symbolic index made the same query 40x slower, DESIGN 2.4) */
-    if (t == 0) { f_K_try_unblock(0); if (f_K_is_blocked(0)) __CPROVER_assume(f_K_timeout_event(0)); verif_os_tid = 0; r = run_f_thread_entry_0(0); st[0] = r; }
-    else if (t == 1) { f_K_try_unblock(1); if (f_K_is_blocked(1)) __CPROVER_assume(f_K_timeout_event(1)); verif_os_tid = 1; r = run_f_thread_entry_1(0); st[1] = r; }
+    if (t == 0) { f_K_try_unblock(0); if (f_K_is_blocked(0)) { __CPROVER_assume(f_K_timeout_event(0)); f_K_try_unblock(0); __CPROVER_assume(!f_K_is_blocked(0)); } verif_os_tid = 0; r = run_f_thread_entry_0(0); st[0] = r; }
+    else if (t == 1) { f_K_try_unblock(1); if (f_K_is_blocked(1)) { __CPROVER_assume(f_K_timeout_event(1)); f_K_try_unblock(1); __CPROVER_assume(!f_K_is_blocked(1)); } verif_os_tid = 1; r = run_f_thread_entry_1(0); st[1] = r; }
 #if NT > 2
-    else if (t == 2) { f_K_try_unblock(2); if (f_K_is_blocked(2)) __CPROVER_assume(f_K_timeout_event(2)); verif_os_tid = 2; r = run_f_thread_entry_2(0); st[2] = r; }
+    else if (t == 2) { f_K_try_unblock(2); if (f_K_is_blocked(2)) { __CPROVER_assume(f_K_timeout_event(2)); f_K_try_unblock(2); __CPROVER_assume(!f_K_is_blocked(2)); } verif_os_tid = 2; r = run_f_thread_entry_2(0); st[2] = r; }
 #endif
 #if NT > 3
-    else if (t == 3) { f_K_try_unblock(3); if (f_K_is_blocked(3)) __CPROVER_assume(f_K_timeout_event(3)); verif_os_tid = 3; r = run_f_thread_entry_3(0); st[3] = r; }
+    else if (t == 3) { f_K_try_unblock(3); if (f_K_is_blocked(3)) { __CPROVER_assume(f_K_timeout_event(3)); f_K_try_unblock(3); __CPROVER_assume(!f_K_is_blocked(3)); } verif_os_tid = 3; r = run_f_thread_entry_3(0); st[3] = r; }
 #endif
     else r = 1;
     if (r == 0) alive--;
